@@ -200,11 +200,15 @@ func (r *RoundRobin) UpsertServer(u *url.URL, options ...ServerOption) error {
 	}
 
 	if s, _ := r.findServerByURL(u); s != nil {
+		// All options or none: a refused one must not leave an earlier one applied, with the rotation
+		// still tuned to the old weights (it could then spin for as long as the weights differ).
+		updated := *s
 		for _, o := range options {
-			if err := o(s); err != nil {
+			if err := o(&updated); err != nil {
 				return err
 			}
 		}
+		*s = updated
 		r.resetState()
 		return nil
 	}
